@@ -5,6 +5,7 @@ import (
 	"errors"
 	"fmt"
 	"io"
+	"math"
 	"slices"
 	"strconv"
 	"strings"
@@ -64,7 +65,13 @@ type Number interface {
 func Hashable(o Object) bool {
 	switch o.Type() { //nolint:exhaustive // We have all the types that are hashable + default for the others.
 	// register because it's a pointer though dubious whether it's hashable for cache key.
-	case INTEGER, FLOAT, BOOLEAN, NIL, STRING, REGISTER:
+	case FLOAT:
+		// -0.0 and 0.0 are the same Go map key yet not interchangeable (1/x): -0.0 can't be (part of) a cache key.
+		if f, ok := o.(Float); ok && f.Value == 0 && math.Signbit(f.Value) {
+			return false
+		}
+		return true
+	case INTEGER, BOOLEAN, NIL, STRING, REGISTER:
 		return true
 	case ARRAY:
 		if sa, ok := o.(SmallArray); ok {
